@@ -3,6 +3,8 @@ module github.com/cockroachdb/pebble/verifharness
 go 1.25.3
 
 require (
+	github.com/cespare/xxhash/v2 v2.3.0
+	github.com/cockroachdb/errors v1.11.3
 	github.com/cockroachdb/pebble v0.0.0
 	pgregory.net/rapid v1.3.0
 )
@@ -14,9 +16,7 @@ require (
 	github.com/RaduBerinde/btreemap v0.0.0-20260105202824-d3184786f603 // indirect
 	github.com/RaduBerinde/tdigest v0.0.0-20251022152254-90e030c3a314 // indirect
 	github.com/beorn7/perks v1.0.1 // indirect
-	github.com/cespare/xxhash/v2 v2.3.0 // indirect
 	github.com/cockroachdb/crlib v0.0.0-20251122031428-fe658a2dbda1 // indirect
-	github.com/cockroachdb/errors v1.11.3 // indirect
 	github.com/cockroachdb/logtags v0.0.0-20230118201751-21c54148d20b // indirect
 	github.com/cockroachdb/redact v1.1.5 // indirect
 	github.com/cockroachdb/swiss v0.0.0-20251224182025-b0f6560f979b // indirect
